@@ -6,7 +6,8 @@ from . import shared, weight, grouplaw, field
 
 def run(ctx):
     repo = Repo(ctx.dev)
-    rules = grouplaw.rules_c15("C15", repo) + [field.rule_tower_consts("C15", repo), weight.rule_weight_group("C15", repo), shared.rule_eq_derived(repo, ["crate::G1", "crate::G2", "crate::AffineG1", "crate::AffineG2"])]
+    rules = grouplaw.rules_c15("C15", repo) + [field.rule_tower_consts("C15", repo), weight.rule_weight_group("C15", repo), shared.rule_eq_derived(repo, ["crate::G1", "crate::G2", "crate::AffineG1", "crate::AffineG2"]),
+             shared.rule_eq_reads("C15", repo, ["crate::groups::G", "crate::groups::AffineG"])]
     return report.emit(
         "C15", ctx.tier, ctx.seed, rules, ctx.started,
         "Abstract interpretation of G::eq and to_affine over the Jacobian-weight domain with path conditions: eq's truth table (identity cases first, true only after both the x- and "
